@@ -68,10 +68,10 @@ theorem fstree_key_strictly_inside (base key dst : Path) (hb : isAbs base = true
       rw [join2_abs hb] at hc ⊢
       exact strictlyInside_of_clean_hasPrefix (isAbs_append hb _) (ne_nil_of_isAbs hb) hc
 
-/-- The directory `Query` walks is inside the base path, for every query prefix — provided the base
-    directory exists (which `NewFSTree` establishes). -/
+/-- The directory `Query` walks is inside the base path — for every query prefix and **every** answer of
+    `os.Stat` (whatever exists or does not exist below, at, or around the base path). -/
 theorem fstree_query_walk_contained (base pre wr : Path) (stat : Path → StatKind) (hb : isAbs base = true)
-    (hdir : stat base = .dir) (h : queryWalkRoot base pre stat = .ok wr) : Inside base wr := by
+    (h : queryWalkRoot base pre stat = .ok (some wr)) : Inside base wr := by
   unfold queryWalkRoot at h
   cases hbf : buildFilePath base pre false with
   | error e => rw [hbf] at h; cases h
@@ -98,19 +98,27 @@ theorem fstree_query_walk_contained (base pre wr : Path) (stat : Path → StatKi
         refine ⟨h1, ?_⟩
         rw [h2, hx, List.dropLast_append_of_ne_nil (by simp)]
         exact List.prefix_append _ _
-    cases hst : stat wp with
-    | dir =>
-      rw [hst] at h
-      dsimp only at h
-      split at h
-      · cases h; exact hin
-      · rename_i hc
+    split at h
+    · cases h
+    · rename_i hguard
+      cases hst : stat wp with
+      | dir =>
+        rw [hst] at h
+        dsimp only at h
+        split at h
+        · cases h; exact hin
+        · rename_i hc
+          cases h
+          exact hparent (fun e => hc (Or.inr (Or.inr e)))
+      | file =>
+        rw [hst] at h
         cases h
-        exact hparent (fun e => hc (Or.inr (Or.inr e)))
-    | file | absent =>
-      rw [hst] at h
-      cases h
-      exact hparent (fun e => by rw [e, hdir] at hst; cases hst)
+        exact hparent (fun e => hguard ⟨e, Or.inr hst⟩)
+      | absent =>
+        rw [hst] at h
+        cases h
+        exact hparent (fun e => hguard ⟨e, Or.inl hst⟩)
+      | other => rw [hst] at h; cases h
 
 /-! ### Directory-structure helper: requested paths -/
 
@@ -484,12 +492,17 @@ example : buildFilePath (B "/a/root") (B "") true = .error .tooShort := by decid
 example : buildFilePath (B "/a/root") (B "d/../x//y/.") true = .ok (B "/a/root/x/y") := by decide
 example : buildFilePath (B "/a/root") (B "../root/k") true = .ok (B "/a/root/k") := by decide
 example : buildFilePath (B "/a/root") (B "") false = .ok (B "/a/root") := by decide
-example : queryWalkRoot (B "/a/root") (B "d/b") (fun p => if p = B "/a/root/d/b" then .file else .dir) = .ok (B "/a/root/d") := by decide
+example : queryWalkRoot (B "/a/root") (B "d/b") (fun p => if p = B "/a/root/d/b" then .file else .dir) = .ok (some (B "/a/root/d")) := by decide
 example : queryWalkRoot (B "/a/root") (B "../root-other") (fun _ => .dir) = .error .integrity := by decide
-example : queryWalkRoot (B "/a/root") (B "d") (fun _ => .dir) = .ok (B "/a/root") := by decide
-example : queryWalkRoot (B "/a/root") (B "d/") (fun _ => .dir) = .ok (B "/a/root/d") := by decide
-example : queryWalkRoot (B "/a/root") (B "d/..") (fun _ => .dir) = .ok (B "/a/root") := by decide
-example : queryWalkRoot (B "/a/root") (B "") (fun _ => .dir) = .ok (B "/a/root") := by decide
+example : queryWalkRoot (B "/a/root") (B "d") (fun _ => .dir) = .ok (some (B "/a/root")) := by decide
+example : queryWalkRoot (B "/a/root") (B "d/") (fun _ => .dir) = .ok (some (B "/a/root/d")) := by decide
+example : queryWalkRoot (B "/a/root") (B "d/..") (fun _ => .dir) = .ok (some (B "/a/root")) := by decide
+example : queryWalkRoot (B "/a/root") (B "") (fun _ => .dir) = .ok (some (B "/a/root")) := by decide
+-- the database directory removed / replaced by a file behind the back of the open storage: no walk at all
+example : queryWalkRoot (B "/a/root") (B "") (fun _ => .absent) = .ok none := by decide
+example : queryWalkRoot (B "/a/root") (B "../root") (fun _ => .file) = .ok none := by decide
+example : queryWalkRoot (B "/a/root") (B "x") (fun _ => .absent) = .ok (some (B "/a/root")) := by decide
+example : queryWalkRoot (B "/a/root") (B "a/x") (fun _ => .other) = .error .statErr := by decide
 example : buildFilePath (B "/a/root") (B "d/../x") true = .ok (join2 (B "/a/root") (B "d/../x")) :=
   fstree_accepts_inside (B "/a/root") (B "d/../x") true (by decide) (by decide) (by decide) (by decide) (B "x") [] (by decide)
 -- DirStructure (#22): parent references behind a matching prefix
